@@ -274,6 +274,7 @@ def run(case) -> Result:
         if e:
             errs.append('help htmldoc: %s' % e)
         ids, hrefs = {}, {}
+        external, relative = [], []
 
         class P(html.parser.HTMLParser):
             def handle_starttag(self, tag, attrs):
@@ -284,20 +285,30 @@ def run(case) -> Result:
                 if tag == 'a' and d.get('name'):
                     ids[d['name']] = ids.get(d['name'], 0) + 1
                 h = d.get('href')
-                if h and h.startswith('#'):
+                if h is None:
+                    return
+                if h.startswith('#'):
                     hrefs[h[1:]] = hrefs.get(h[1:], 0) + 1
+                elif re.match(r'[a-zA-Z][a-zA-Z0-9+.-]*:', h):
+                    external.append(h)
+                else:
+                    # the manual is ONE file: a link that is neither '#anchor' nor an absolute URL is a cross-reference to nothing
+                    relative.append(h)
 
         P().feed(o.out)
         dead = sorted(h for h in hrefs if h not in ids)
         dup = sorted(i for i, c in ids.items() if c > 1)
         if dead:
             errs.append('%d cross-references point at no anchor: %s' % (len(dead), dead[:5]))
+        if relative:
+            errs.append('%d cross-references are neither #anchor nor absolute URL (dead in a one-file manual): %s' % (len(relative), sorted(relative)[:5]))
         if dup:
             errs.append('%d anchors exist more than once: %s' % (len(dup), dup[:5]))
         if len(ids) < 50 or len(hrefs) < 50:
             errs.append('html document suspiciously small: %d ids, %d link targets' % (len(ids), len(hrefs)))
         res.stats['html anchors'] = len(ids)
         res.stats['html link targets'] = len(hrefs)
+        res.stats['html external links'] = len(external)
         res.nontrivial += len(hrefs)
         res.n += len(hrefs)
     if not res.samples and k in ('instr', 'entity'):
